@@ -75,6 +75,10 @@ def checkGtpu (what : String) (impl : String) (want : List Bytes) : List String 
     match got with
     | none => [s!"C13 {what}: unparsable datagram list"]
     | some got =>
+      -- C14: whatever else holds, every datagram that leaves must read as a G-PDU under the reference decoder
+      let illFormed := (got.zipIdx.filter fun (b, _) => (GtpuRef.decode b).isNone).map fun (b, i) =>
+        s!"C14 {what}: datagram {i} is not a well-formed GTPv1-U G-PDU (TS 29.281 reference decoder rejects it): {Bytes.toHex (b.take 24)}…"
+      illFormed ++
       if got == want then [] else
       let decoded := got.map fun b => (GtpuRef.decode b).map fun p =>
         (p.teid, (p.exts.filterMap GtpuRef.pduSessInfo).map (·.qfi), p.payload.length)
